@@ -84,10 +84,11 @@ PROPS = {
         "parts": [
             {"pkg": "internal/plugin", "files": ["plugin/zz_verif_common_test.go", "plugin/zz_verif_C13_test.go", "plugin/zz_verif_C14_test.go"], "run": "TestVerif_C14"},
             {"pkg": "internal/system", "files": ["system/zz_verif_os_test.go"], "run": "TestVerif_C14os"},
+            {"pkg": "internal/config", "files": ["config/zz_verif_C14cfg_test.go"], "run": "TestVerif_C14cfg"},
         ],
         "level": "exploration",
-        "quick": {"shards": 4},
-        "thorough": {"shards": 16},
+        "quick": {"shards": 6},
+        "thorough": {"shards": 18},
         "rule": ("address lists: every sequence of length <=3 (quick) / <=4 (thorough) over a 21-entry pool covering "
                  "class (ULA/GUA/link-local) x stability source (none, each flag, EUI-64) x exclusion flag, plus IPv4; "
                  "rapid-generated lists up to 30 with static server lists; oracle = total-order specification "
@@ -539,3 +540,12 @@ WIRE = (" Wire-bytes sub-check (20 000 / 4 000 000 cases): wire images of well-f
 PROPS["C18"]["rule"] += WIRE + ("Monitor.handle must not panic, count the message exactly once under its type and host, and set the M/O gauges of an RA. "
                                 "Thorough tier only: 2 minutes of native coverage-guided fuzzing of the same property (monitor and advertiser handler).")
 PROPS["C09"]["rule"] += WIRE + ("Advertiser.handle must not panic, answer an RS to its source (all-nodes for ::), take an RA without error and count any other type as invalid.")
+PROPS["C14"]["rule"] += (" Configuration part: server lists of 0..6 entries drawn from several spellings of five addresses (compressed, expanded, upper case, "
+                        ":: in four forms, an IPv4 and an IPv4-mapped entry) through config.Parse: accepted iff all entries are distinct IPv6 addresses (at most one ::), "
+                        "and the option Apply produces is the automatic pick followed by the static servers in ascending order, each once, identically on a second application.")
+PROPS["C03"]["rule"] += " Captive-portal URIs are filled with plain, escapable (space, non-ASCII) and pre-escaped characters: the option must fit as it is sent."
+PROPS["C05"]["rule"] += (" Parsed-pairs sub-check (20 000 / 1 000 000 documents per run, all parsed in one process): 1..4 interfaces with min_interval / max_interval drawn "
+                        "from 13 spellings each; acceptance by config.Parse must equal the documented bounds, and every accepted pair is put through the real multicastDelay "
+                        "(7 indices x 4 forced draws: no panic, bounds).")
+PROPS["C06"]["rule"] += " Bursts of 17 / 40 / 60 unicast solicitations (more than the 16-slot request queue), half of them at the very instant a periodic tick is due."
+PROPS["C07"]["rule"] += " One case in three has 1..3 sibling advertising interfaces (unicast_only at random) and 0..2 monitoring / idle interfaces before it in the one Metrics."
